@@ -16,6 +16,7 @@ pub mod snap;
 pub mod tower;
 pub mod remote;
 pub mod e3;
+pub mod e3c;
 pub mod pure_c07f;
 pub mod pure_c17;
 pub mod pure_c18;
